@@ -1,5 +1,5 @@
 /-! Byte-exact model of `mjml/html/tag.go`: `HTMLTag` is an ordered attribute list (overwrite on the same name), an ordered
-    class list and an ordered style list, rendered attributes → classes → styles, values unescaped.  Output is modelled as
+    class list and an ordered style list, rendered attributes → classes → styles; attribute values with `"` written as `&quot;`, class and style values unescaped.  Output is modelled as
     the list of `WriteString` calls (their concatenation is the bytes). -/
 namespace Gomjml.Tag
 
@@ -26,7 +26,10 @@ def addClass (t : HTag) (c : String) : HTag := { t with classes := t.classes ++ 
 def addStyle (t : HTag) (n v : String) : HTag := { t with styles := t.styles ++ [(n, v)] }
 def maybeAddStyle (t : HTag) (n v : String) : HTag := if v = "" then t else addStyle t n v
 
-def attrWrites (a : String × String) : List String := [" ", a.1, "=\"", a.2, "\""]
+/-- `EscapeAttrValue`: a double quote in the value is written as `&quot;`, everything else as it is -/
+def escQuotes (v : String) : String := String.join (v.toList.map (fun c => if c = '"' then "&quot;" else String.singleton c))
+
+def attrWrites (a : String × String) : List String := [" ", a.1, "=\"", escQuotes a.2, "\""]
 def styleWrites (s : String × String) : List String := [s.1, ":", s.2, ";"]
 
 /-- `strings.Join(classes, " ")` -/
